@@ -104,6 +104,9 @@ fn roundtrip(lines: &[String], replies: &[String], seed: u64, run: bool, stats: 
     }
     if churn {
         // an editing session: list, delete a line, enter it again with other text, list again
+        // (something has been READ before the edits: what READ delivers afterwards must follow the edited text)
+        a.run_line("READ Z9$", 5);
+        a.settle();
         let first = list_of(&mut a);
         if let Some(l) = first.get(first.len() / 2) {
             if let Some((n, _)) = abasic_core::verif_hooks::parse_line_number(l) {
@@ -212,7 +215,7 @@ fn data_text(rng: &mut Rng) -> String {
             8 => numeral(rng),
             9 => format!("-{}", rng.below(100)),
             10 => rng.s(&["inf", "nan", "1e5", "+7", "-0", "1E-3", "infinity", "NaN", "-inf"]).to_string(),
-            11 => "\"a, b\"".into(),
+            11 => rng.s(&["\"a, b\"", "\u{a0}\"abc\"", "\u{3000}\"x, y\"", "\x0b\"vt\"", "\u{2003}word", "\"q\"\u{a0}"]).to_string(),
             12 => "\"c:d\"".into(),
             13 => "é ü".into(),
             14 => "\"12\"".into(),
